@@ -25,6 +25,7 @@ SHAPE = {
     "uTeS": dict(inst=9, tk="undef", rk="num", sk="err", trs=7, parsed=False, lq=0, pp=1, g1="w", g2="r"),
     "eAll": dict(inst=10, tk="err", rk="err", sk="err", trs=8, parsed=False, lq=0, pp=1, g1="z", g2="r"),
 }
+NUM_SHAPES = ["a1", "a2", "a3", "b1", "c1", "p0a", "z0", "z0", "z0"]
 ITEM_KINDS = ["tract", "trs", "str", "int", "none", "float", "plssdesc", "list_of_tracts", "tractlist", "trslist"]
 PATHS = ["ctor", "extend", "iadd", "add", "append", "insert", "setitem", "from_multiple"]
 
@@ -251,10 +252,17 @@ def run(ctx):
             if cont == "TRSList":
                 lst = as_trs_list(lst)
             nested = ctx.rng.random() < 0.5
+            numeric = False
+            if ctx.rng.random() < 0.3:
+                # grouped by the numbers (twp_num, sec_num) - only lists whose components all are numbers, 0 included
+                numeric = True
+                lst = [dict(SHAPE[ctx.rng.choice(NUM_SHAPES)]) for _ in range(L)]
+                if cont == "TRSList":
+                    lst = as_trs_list(lst)
             cases.append({"id": "g%d" % n, "kind": "c18_group",
                           "abs": {"kind": "group", "lst": lst, "attrs": attrs},
                           "args": {"lst": lst, "attrs": attrs, "nested": nested, "container": cont,
-                                   "as_list": ctx.rng.random() < 0.5,
+                                   "as_list": ctx.rng.random() < 0.5, "numeric": numeric,
                                    "how": ctx.rng.choice(["method", "method", "into", "function", "plss", "into_empty"]),
                                    "into_via": ctx.rng.choice(["method", "function"])}})
     # entry paths: every path x every single kind, then mixtures
